@@ -183,12 +183,13 @@ func generate(prop string, seed, idx uint64, build string, sites *work.SiteTable
 	case "C15":
 		return scheduled(work.GenC15(seed, idx), build, seed, idx)
 	case "C16":
-		var fs, hot []string
+		var fs, hot, shared []string
 		if sites != nil {
 			fs = sites.Funcs()
 			hot = sites.HotFuncs
+			shared = sites.SharedHot
 		}
-		return work.GenC16(seed, idx, build, fs, hot)
+		return work.GenC16(seed, idx, build, fs, hot, shared)
 	case "C18":
 		return work.GenC18(seed, idx, build)
 	}
